@@ -206,6 +206,15 @@ def run(tier, seed):
     par.pmap(work_sock, sock_cases(tier), stats=st)
     cli = [(tuple(pre), bl, eol) for pre in PRELINES for bl in SOCK_BANNERS for eol in ('\r\n', '\n')]
     par.pmap(work_cli, cli, stats=st)
+    vcases = []
+    for pre, bl, eol in H.pick(cli, seed, 20 if tier == 'quick' else 80):
+        vcases.append({'label': 'banner %r %r' % (pre, bl), 'opts': ['-n'] + (['-j'] if len(vcases) % 2 else []),
+                       'make': (lambda pre=pre, bl=bl, eol=eol: P.Server(banner=bl.encode('latin1') if '\x80' in bl else bl.encode(), pre_banner=[p.encode() for p in pre], line_end=eol.encode()))})
+    # split delivery over real TCP as well
+    for pre, bl, eol in H.pick(cli, seed + 1, 6 if tier == 'quick' else 30):
+        vcases.append({'label': 'banner-seg %r %r' % (pre, bl), 'opts': ['-n'], 'segment': 3,
+                       'make': (lambda pre=pre, bl=bl, eol=eol: P.Server(banner=bl.encode('latin1') if '\x80' in bl else bl.encode(), pre_banner=[p.encode() for p in pre], line_end=eol.encode()))})
+    validated = H.validate_traces(vcases, st)
     return evidence.finish(
         PID, tier, seed, st, t0,
         rule='banner grammar to a bound: protocol %s x software tokens of length 1..%d over %s x comments %s with 1-3 space separators and trailing '
@@ -214,7 +223,7 @@ def run(tier, seed):
              'and JSON for every prefix x banner x ending; non-trivial = lines inside the grammar' % (
                  PROTOS, 2 if tier == 'quick' else 3, TOKCH, COMMENTS, INJECT, len(PRELINES), len(SOCK_BANNERS), ' 3rd' if tier == 'quick' else ''),
         assumptions=['reference parser refmodels/banner.py written from RFC 4253 section 4.2', 'comments compared modulo collapsing of runs of blanks'],
-        exhaustive=True)
+        exhaustive=True, traces_validated=validated)
 
 
 def replay(path):
